@@ -371,6 +371,7 @@ pub fn run_behaviour_sink(beh: &Value, out: &mut Out, sink: &mut PacketSink) {
                     }
                 }
                 let prio = ctx.objs[o - 1].priority;
+                let tl_bytes: Vec<u64> = (0..8).rev().map(|k| (desc.transfer_length >> (8 * k)) & 0xFF).collect();
                 let r = catch(|| sender.add_object(prio, desc));
                 let ev = match r {
                     Err(m) => { dead = true; json!({"ev":"add","t":t,"o":o,"res":"panic","m":m}) }
@@ -383,6 +384,7 @@ pub fn run_behaviour_sink(beh: &Value, out: &mut Out, sink: &mut PacketSink) {
                 };
                 let mut ev = ev;
                 ev["h"] = json!(used_h);
+                ev["Ld"] = json!(tl_bytes);
                 if !dead {
                     ev.as_object_mut().unwrap().insert("st".into(), projection(&mut sender, &ctx, &added));
                 }
@@ -556,15 +558,25 @@ pub fn replay_sender(args: &Args) {
     } else {
         std::fs::File::open(&input).expect("open input").read_to_string(&mut text).unwrap();
     }
-    for line in text.lines() {
-        if line.trim().is_empty() {
+    // a behaviour that does not finish within the limit ends the process with exit code 3 and a side file naming it;
+    // the caller resumes after it (see senderlib._one_chunk)
+    let limit_ms = args.u64("limit_ms", 120_000);
+    let from = args.u64("from", 0) as usize;
+    if let Some(o) = args.get("out") {
+        crate::recv_drv::start_watchdog(format!("{}.timeout", o), limit_ms);
+    }
+    for (n, line) in text.lines().filter(|l| !l.trim().is_empty()).enumerate() {
+        if n < from {
             continue;
         }
         let beh: Value = serde_json::from_str(&line).expect("behaviour json");
-        let r = catch(|| run_behaviour(&beh, &mut out));
+        let bid = beh.get("beh").and_then(|b| b.as_i64()).unwrap_or(-1);
+        crate::recv_drv::CUR_BEH.store(bid, std::sync::atomic::Ordering::Relaxed);
+        let r = crate::recv_drv::guarded(limit_ms, || catch(|| run_behaviour(&beh, &mut out)));
         if let Err(m) = r {
             out.emit(&json!({"ev":"harness_panic","beh":beh.get("beh").cloned().unwrap_or(json!(-1)),"m":m}));
         }
+        out.flush();
     }
     out.flush();
 }
